@@ -44,7 +44,8 @@ def st_mol_case(draw, separable=False, closed=False):
                 k["add"] = "LDA_X"
     else:
         model = draw(G.st_model())
-    mol = draw(G.st_mol(max_atoms=3 if model["nldf"] is None else 2, max_elec=18, levels=(0, 1)))
+    mol = draw(G.st_mol(max_atoms=3 if model["nldf"] is None else 2, max_elec=18, levels=(0, 1),
+                        bases=("sto-3g", "6-31g", "cc-pvdz") if (model["sdmx"] and model["nldf"] is None) else ("sto-3g", "6-31g")))
     calc = draw(G.st_calc())
     if separable:
         calc.update(xc=None, ckernel=None)
